@@ -152,15 +152,24 @@ CHECKS = {
              "equals the trace on a newly built one), fresh_twin_openspiel / os_reset_eq (the adapter's _should_reset, "
              "current player and the manager underneath), gymabs_reset_forgets / gymabs_reset_clears; the model state of "
              "each layer carries every mutable field of the Python object and reset is written field by field, so the "
-             "theorems fail for a model that skips a field (how F3, F4, F8 were found). Grid-world state components and "
-             "the super-agent / communication wrappers: see the level note. Tie: used-versus-fresh twins on the real "
-             "code (dirty with a generated prefix, reset, follow-up under a fresh seed vs a newly built copy): both "
-             "traces must be identical and equal to the model's.",
+             "theorems fail for a model that skips a field (how F3, F4, F8 were found). Grid-world state components: "
+             "C08_grid_reset_fresh (from ANY prior world, a full reset through a placement state, HealthState, AmmoState "
+             "and OrientationState in any order leaves every agent alive, with its declared or a freshly drawn legal "
+             "health / ammunition / orientation / position, standing in a cell that stores it, and the consistency "
+             "invariant holds; nothing in the conclusion refers to the prior world). Super-agent / communication "
+             "wrappers: the reset clauses of C14_trace and of C20's trace theorem. Tie: used-versus-fresh twins on the "
+             "real code (dirty with a generated prefix, reset, follow-up under a fresh seed vs a newly built copy): both "
+             "traces must be identical and equal to the model's; for the grid components the prefix is a history of "
+             "moves, attacks, deaths and resets on one real world and the model runs the follow-up from the FRESH "
+             "world's dump (op ghist); multi-episode cases of the placement states, the communication wrapper and the "
+             "super-agent wrapper are forwarded from their own modules and judged by their trace specifications.",
         design="§5 C08", technique="Lean 4 proof (state equality after reset, lifted to traces) + used-versus-fresh twin "
                                    "differential runs on the real code",
-        note=NOTE + " Layers covered by theorem + twins in this check: the three managers, the OpenSpiel adapter, "
-             "GymABS. The grid-world state components (placement, health, ammo, orientation) and the super-agent and "
-             "communication wrappers have their reset clauses proved and twin-tested in C13/C03, C14 and C20."),
+        note=NOTE + " Layers covered in this check: the three managers, the OpenSpiel adapter, GymABS (state-equality "
+             "theorems + twins), the grid-world state components (C08_grid_reset_fresh + twins through the C03 history "
+             "model; an equality-of-states theorem for the placement model is not proved: the model is only ever run on "
+             "the fresh world), the super-agent and communication wrappers and repeated placement resets (cases "
+             "forwarded from C14 / C20 / C13, judged by those properties' proved trace specifications)."),
     "C19": dict(
         text="Lean 4 theorems over a universe PyVal of Python values (None, bool, int, float incl. nan/inf, str, list, "
              "tuple, set, dict, numpy arrays with dtype/shape, numpy scalars, agent objects): overlap_closure_symmetric "
